@@ -173,3 +173,103 @@ def compare_cops(model_events, tr):
     if len(model) != len(real):
         return {"index": min(len(model), len(real)), "model": len(model), "real": len(real)}
     return None
+
+
+# ---------------------------------------------------------------- pipelines (C15)
+def gen_pipeline(rng, local=None):
+    n = rng.randint(1, 4)
+    stages = []
+    for k in range(1, n + 1):
+        nj = rng.randint(1, 2)
+        jobs = [f"s{k}{chr(97 + i)}" for i in range(nj)]
+        blk = {jobs[1]: [jobs[0]]} if nj == 2 and rng.random() < 0.5 else {}
+        stages.append({"jobs": jobs, "blk": blk, "rc": {j: rng.choice([0, 0, 1]) for j in jobs}})
+    return {"stages": stages, "local": (rng.random() < 0.35) if local is None else local, "size": rng.randint(1, 2),
+            "maxnodes": rng.choice([0, 1, 2]), "sbatch_fail_stage": rng.choice([0, 0, 0, 1])}
+
+
+def run_pipeline(pscn, seed, debug=False):
+    from jade.extensions.generic_command import GenericCommandConfiguration, GenericCommandParameters
+    from jade.jobs.pipeline_manager import PipelineManager
+    from jade.models import SubmitterParams, HpcConfig, SlurmConfig, LocalHpcConfig
+    rng = random.Random(seed)
+    base = mkbase()
+    rc = {}
+    for st in pscn["stages"]:
+        rc.update(st["rc"])
+    scn = {"rc": rc, "cpus": 2, "locklib": "never"}
+    if pscn.get("sbatch_fail_stage") and not pscn["local"]:
+        scn["sbatch_fail"] = {"1": 7}      # the first batch of some stage(s) fails at sbatch: missing jobs, return code 1
+    w = World(scn, base, debug=debug)
+    w.out = os.path.join(base, "pout")
+    w.watch_dirs = [w.out]
+    try:
+        files = []
+        for k, st in enumerate(pscn["stages"], 1):
+            cfg = GenericCommandConfiguration()
+            for j in st["jobs"]:
+                cfg.add_job(GenericCommandParameters(name=j, command=f"vjob {j}", blocked_by=set(st["blk"].get(j, []))))
+            f = os.path.join(base, f"stage{k}.json")
+            cfg.dump(f)
+            files.append(f)
+        hpc = HpcConfig(hpc_type="local", hpc=LocalHpcConfig()) if pscn["local"] else \
+            HpcConfig(hpc_type="slurm", hpc=SlurmConfig(account="acct", walltime="0:10:00"))
+        sp = SubmitterParams(hpc_config=hpc, generate_reports=False, resource_monitor_type="none",
+                             per_node_batch_size=pscn["size"], max_nodes=(pscn["maxnodes"] or None),
+                             num_parallel_processes_per_node=2)
+        pfile = os.path.join(base, "pipeline.json")
+        PipelineManager.create_config_from_files(files, pfile, sp)
+        w.ev(e="cmd", pid=0, host="login", argv=["jade", "pipeline", "submit"], nested=False)
+        w.spawn(argv=["jade", "pipeline", "submit", pfile, "-o", w.out], host="login", env={"VERIF_CPUS": "2"},
+                label="pipeline-submit")
+        chooser = random_chooser(rng)
+        w.run(chooser)
+        rec = 0
+        while rec < 12:
+            pj = project.read_pipeline(w.out)
+            if pj is None or pj["complete"] or pscn["local"]:
+                break
+            rec += 1
+            sd = os.path.join(w.out, f"output-stage{pj['stage']}")
+            w.ev(e="cmd", pid=0, host="login", argv=["jade", "try-submit-jobs"], nested=False)
+            w.spawn(argv=["jade", "try-submit-jobs", sd], host="login")
+            w.run(chooser)
+        w.ev(e="end", recoveries=rec, full=True)
+    finally:
+        w.close()
+        shutil.rmtree(base, ignore_errors=True)
+    return {"scn": {"n": len(pscn["stages"])}, "pscn": pscn, "ev": w.trace, "moves": w.moves, "seed": seed,
+            "driver": ["pipeline", pscn, seed]}
+
+
+def encode_pipeline(tr, sid):
+    import re
+    evs, idx = [], []
+
+    def stage(e):
+        m = re.match(r"output-stage(\d+)$", e.get("dir", "") or "")
+        return int(m.group(1)) if m else None
+
+    for i, e in enumerate(tr["ev"]):
+        k = e["e"]
+        x = None
+        if k == "promote" and e.get("create") and stage(e):
+            x = {"e": "create", "k": stage(e)}
+        elif k == "status" and stage(e):
+            x = {"e": "status", "k": stage(e), "complete": e["complete"]}
+        elif k == "sbatch" and e.get("ok") and stage(e):
+            x = {"e": "activity", "k": stage(e)}
+        elif k == "launch" and stage(e):
+            x = {"e": "activity", "k": stage(e)}
+        elif k == "summary" and stage(e):
+            x = {"e": "summary", "k": stage(e), "nmissing": len(e["missing"])}
+        elif k == "pipeline":
+            x = {"e": "pipeline", "stage": e["stage"], "complete": e["complete"], "rcs": e["rcs"]}
+        elif k in ("kill", "fault", "hang"):
+            x = {"e": "fault"}
+        elif k == "end":
+            x = {"e": "end"}
+        if x is not None:
+            evs.append(x)
+            idx.append(i)
+    return {"scn": {"id": sid, "n": tr["scn"]["n"]}, "ev": evs}, idx
